@@ -79,6 +79,9 @@ class LenClass:
     def is_masklike(self, idx: Node) -> bool:
         if idx.op == "Compare":
             return True
+        if idx.op == "Tuple" and idx.args and self.is_masklike(idx.args[0]) and \
+                all(a.op == "Const" and a.attr is Ellipsis or a.op == "Slice" for a in idx.args[1:]):
+            return True
         if idx.op == "BinOp" and idx.attr in ("BitAnd", "BitOr", "BitXor"):
             return True
         if idx.op == "UnaryOp" and idx.attr in ("Invert", "Not"):
